@@ -17,6 +17,5 @@ CONSTANTS
   Variant = "code"
   MaxOps = 46
   MaxEvents = 30
-INVARIANTS ExactlyOnce AllFlushed NotEarly RingOK Rounded Placement DropsJustified OutIncreasing SendBound ChanCap
 ACTION_CONSTRAINT ExportEnd
 CHECK_DEADLOCK FALSE
